@@ -438,6 +438,12 @@ FAMILY = [
      'evolution': [_IX1, _IX2]},
     {'spec0': _two(), 'valid': [_UT2, _UT1], 'perturbation': 'family:two ChangeMeta(unique_together) reordered',
      'evolution': [_UT1, _UT2]},
+    # the right entries of Meta.indexes in another order, and with one of them repeated: a list of indexes is the list
+    # the models declare, entry for entry
+    {'spec0': _two(), 'valid': [_IX2], 'perturbation': 'family:Meta.indexes entries reordered',
+     'evolution': [dict(_IX2, py_value=list(reversed(_IX2['py_value'])))]},
+    {'spec0': _two(), 'valid': [_IX2], 'perturbation': 'family:Meta.indexes entry repeated',
+     'evolution': [dict(_IX2, py_value=_IX2['py_value'] + _IX2['py_value'][:1])]},
     # a relation added with another relation class than the models have (OneToOneField is a subclass of ForeignKey,
     # but its column is UNIQUE), and the other way round
     {'spec0': _two(), 'valid': [_ADDFK], 'perturbation': 'family:relation class OneToOneField for ForeignKey',
